@@ -4,6 +4,7 @@ import PydraModel.JobProto.Model
 import PydraModel.JobProto.Lemmas
 import PydraModel.JobProto.Bind
 import PydraModel.JobProto.Conc
+import PydraModel.JobProto.ShellExec
 /-
 JSON-lines driver of the JobProto engine (part A).
 
@@ -23,6 +24,8 @@ JSON-lines driver of the JobProto engine (part A).
    "events":[{"ev":"start"|"release"|"acquired","pid":i}…]}
       -> {"status":[[per process: "notStarted"|"waiting:<point>"|"blocked"|"ended:<ctl>"] after each event],
           "procs":[{ended,resVar,cwd,info}…], "execs":n, "dir":b, "result":…, "jobLock":null|pid}
+  {"op":"shell_rc","rc":n} -> {"raises":b,"test":"<source of the test in Native.execute>"}
+  (in "env": "shellRc": n — the body is a shell command ending with return code n — may replace "bodyFails")
   {"op":"bind","ret":{"kind":"none|tuple|dict|other","n":k,"keys":[…]},"outs":[[name, mandatory]…]}
       -> {"ok":[[name, value]…]} | {"err":"ValueError"|"RuntimeError"}
 -/
@@ -115,10 +118,14 @@ def coreJ (c : Core) : Json := Json.mkObj [
   ("lastRaiseBase", toJson c.lastRaiseBase)]
 
 def envOf (j : Json) : Except String Env := do
-  let bf ← match (← j.getObjVal? "bodyFails") with
-    | .null => pure none
-    | .bool b => pure (some b)
-    | _ => throw "bad-bodyFails"
+  -- `"shellRc": n` (a shell task whose command ends with return code n) takes precedence over `"bodyFails"`
+  let bf ← match j.getObjVal? "shellRc" with
+    | .ok (.num n) =>
+      if n.exponent != 0 then throw "bad-shellRc" else pure (shellBody Gen.ShellExec.nativeRcTest n.mantissa)
+    | _ => match (← j.getObjVal? "bodyFails") with
+      | .null => pure none
+      | .bool b => pure (some b)
+      | _ => throw "bad-bodyFails"
   return { rerun := ← j.getObjValAs? Bool "rerun", prov := ← j.getObjValAs? Bool "prov", bodyFails := bf,
            auditChdir := auditStartChdir }
 
@@ -310,6 +317,10 @@ def handle (j : Json) : Json :=
       | "next" => return Json.mkObj [("core", coreJ (nextJobC c))]
       | h => throw s!"bad-how {h}"
     | "bind" => handleBind j
+    | "shell_rc" =>
+      let rc ← j.getObjValAs? Int "rc"
+      return Json.mkObj [("raises", toJson (Gen.ShellExec.nativeRcTest.eval rc)),
+                         ("test", Json.str Gen.ShellExec.nativeRcTestSrc)]
     | op => throw s!"bad-op {op}"
   match r with
   | .ok v => v
